@@ -4,8 +4,9 @@
    back by its root name as saved (canon, see C01), whatever else the file holds; a read without a path reports exactly
    the root names; the frame property (adding or modifying one tree never changes any other tree, nor the header and
    UUID); a list / tuple of roots, unrooted nodes, arrays and dicts saved into a fresh file is stored as documented:
-   the roots given whole, everything unrooted under one shared root.  PARTIAL: list items that are rooted nodes (stored
-   alone under a copy of their root, through an emdpath append) are tied by correspondence + oracle. *)
+   the roots given whole, everything unrooted under one shared root; a list of rooted nodes (direct children of one root):
+   each stored alone -- without its children -- under a fresh copy of that root carrying the root's metadata.  PARTIAL:
+   lists mixing rooted nodes of several roots with other items are tied by correspondence + oracle. *)
 From Coq Require Import Permutation.
 From Emd Require Import Base.Prelude Model.H5 Model.Emd Model.Reader Generated.Tables Proofs.PTree Proofs.PFrame Proofs.PRead Proofs.PMulti.
 From Emd Require Import Model.EmdList.
@@ -86,6 +87,21 @@ Theorem C10_a_list_of_roots_and_unrooted_items_is_stored_as_documented :
     write_list c Absent tops items (WA md tr None) = (Ok tt, H5 (forest_file c trees)).
 Proof. exact list_save_into_a_fresh_file. Qed.
 Print Assumptions C10_a_list_of_roots_and_unrooted_items_is_stored_as_documented.
+
+(* list items that are rooted nodes: xs = names of direct children of the root r = tops[i].  The file holds one tree: a root
+   named like r with r's metadata, whose children are the selected nodes alone (with_kids d [] = the node without children) *)
+Theorem C10_rooted_list_items_are_stored_alone_under_a_copy_of_their_root :
+  forall c tops i xs md tr,
+    let r := nth i tops dummy in
+    rcls r = CRoot -> rname r <> "" -> no_slash (rname r) = true -> NoDup (keys (rmds r)) ->
+    xs <> [] -> NoDup xs -> ~ In "metadatabundle" xs ->
+    (forall x, In x xs -> exists data, rwalk r [x] = Some data /\ rname data = x) ->
+    In md allmodes ->
+    write_list c Absent tops (rooted_list i xs) (WA md tr None)
+    = (Ok tt, H5 (forest_file c [RN CRoot (rname r) 0%Z 0 (rmds r)
+                                   (map (fun x => match rwalk r [x] with Some d => with_kids d [] | None => dummy end) xs)])).
+Proof. exact list_of_rooted_items. Qed.
+Print Assumptions C10_rooted_list_items_are_stored_alone_under_a_copy_of_their_root.
 
 Example C10_list_example :
   let tops := [RN CRoot "r1" 0%Z 0 [] [RN CNode "a" 0%Z 0 [] []]; RN CArray "u" 7%Z 1 [] []; RN CRoot "r2" 0%Z 0 [("m", 1%Z)] []; RN CNode "u" 0%Z 0 [] []] in
